@@ -106,7 +106,14 @@ def run(ctx):
                 data = add_doctype(data, canary, "http://127.0.0.1:9/evil.dtd")
                 dist["with_doctype"] += 1
             path = os.path.join(d, "in.docx") if named else None
-            if path:
+            if path and i % 3 == 1:
+                # the input is reached through a symbolic link: targets are resolved against the directory of the name that was GIVEN
+                os.makedirs(os.path.join(d, "store"), exist_ok=True)
+                with open(os.path.join(d, "store", "blob.docx"), "wb") as f:
+                    f.write(data)
+                os.symlink(os.path.join("store", "blob.docx"), path)
+                dist["symlinked_input"] = dist.get("symlinked_input", 0) + 1
+            elif path:
                 with open(path, "wb") as f:
                     f.write(data)
             linked = A.linked_outcomes(pkg, d if named else None)      # also creates the files that exist
